@@ -396,6 +396,12 @@ impl Disk
         };
         let mut fx = Extent::new();
         fx.set_name(base,typ);
+        // the high bits of name bytes 5-8 are interface attributes of BDOS calls, they are never stored
+        // (the directory scan takes a name with one of them set for a corrupted entry)
+        let mut flgs1 = flgs1;
+        for i in 4..8 {
+            flgs1[i] &= 0x7f;
+        }
         fx.set_flags(flgs1.clone().try_into().expect(RCH),flgs2.clone().try_into().expect(RCH));
         fx.user = user;
         let entry_idx = self.get_available_extent(&dir).unwrap();
